@@ -449,6 +449,44 @@ class Item:
                          "signature": " ".join(texts(sig)), "post": post, "why": why,
                          "drops": "the rest of the enclosing function; variables read become parameters"})
 
+    def lift_closure(self, anchor_src, nth, new_sig_src, why=""):
+        """The body of a closure literal passed as the (last) argument of a call becomes the body of a new
+        function with the declared signature: anchor = call prefix up to and including `(` and the closure's
+        `|params|`; body = everything up to the call's closing paren (expression or block), verbatim.
+        Works inside macro invocations (json!{..}) too, since it is purely token based."""
+        pat = texts(tokenize(anchor_src))
+        o = self.body_open()
+        hits = [h for h in find_seq(self.toks, pat) if h > o]
+        if len(hits) < nth or nth < 1:
+            raise LostAnchor("lift-closure: anchor `%s` occurs %d times in %s, wanted #%d" % (" ".join(pat), len(hits), self.path, nth))
+        h = hits[nth - 1]
+        T = self.toks
+        open_idx = None
+        for k in range(len(pat) - 1, -1, -1):
+            if pat[k] == "(":
+                open_idx = h + k
+                break
+        if open_idx is None or pat[-1] != "|":
+            raise LostAnchor("lift-closure: anchor must look like `.method ( | params |`")
+        close = match_close(T, open_idx)
+        body = T[h + len(pat):close]
+        if not body:
+            raise LostAnchor("lift-closure: empty closure body")
+        sig = tokenize(new_sig_src)
+        line = body[0].line
+        w1 = tokenize("{")
+        w2 = tokenize(" }")
+        for t in sig + w1 + w2:
+            t.line = line
+        self.line = body[0].line
+        self.end_line = body[-1].line
+        body[0].ws = " "
+        self.toks = sig + w1 + body + w2
+        self.original = render(body).strip()
+        self.log.append({"kind": "lift-block", "what": "lift-closure", "anchor": " ".join(pat), "nth": nth,
+                         "signature": " ".join(texts(sig)), "why": why,
+                         "drops": "the rest of the enclosing function; captured variables become parameters"})
+
     def abstract_span(self, anchor_src, nth, tail_src, rep_src, why="", groups=1):
         """Replace `anchor` + the bracket group that directly follows it + the literal `tail` tokens by the
         replacement (a call to a declared stand-in).  Unlike `replace`, the content of the group is not
